@@ -876,6 +876,10 @@ class KeywordSearches:
                 data, parent, parentref, translated_path, ancestry,
                 relay_segment)
         else:
+            # Climb on copies; the incoming path and ancestry are shared with
+            # the NodeCoords that were already handed out.
+            translated_path = YAMLPath(translated_path)
+            ancestry = list(ancestry)
             for _ in range(parent_levels):
                 translated_path.pop()
                 (data, _) = ancestry.pop()
